@@ -1,9 +1,33 @@
+(* C19/Props.v — the property theorems.  Nothing else. *)
 From Coq Require Import List NArith ZArith Bool Arith Lia.
 From Gen Require Import C19.
-From C19 Require Import Model Proofs.
+From C19 Require Import Model Wf ProofsParse.
 Import ListNotations.
 Local Open Scope N_scope.
 
-Theorem lex_empty : forall U, M_lex U [] = [mkTok TEOF [] 1].
-Proof. reflexivity. Qed.
-Print Assumptions lex_empty.
+(* C19, faithful notation (GSUB side): for every classification of the
+   non-ASCII code points by package unicode (U), every font whose glyph names
+   are distinct identifiers and whose cmap is a finite map into its glyphs, and
+   every list of GSUB1-4 lookups in the form the parser produces (all subsets
+   of the three lookup flags; format 1.1 / 1.2, 2.1, 3.1, 4.1 subtables over
+   glyph lists, ranges, names, numbers and quoted strings): parsing the text
+   written by ExplainGsub gives back exactly the lookup list.  No bound on the
+   number of glyphs below 65536, of lookups, of mappings or on the lengths. *)
+Theorem parse_explain_id_fragment_gsub :
+  forall (U : uclass) (F : font) (ll : list lookup),
+    font_wf U F = true ->
+    Forall (fun lk => gsub_lookup_wf F lk = true) ll ->
+    M_parse U F (M_explain_gsub U F ll) = POk ll.
+Proof. exact parse_explain_gsub. Qed.
+Print Assumptions parse_explain_id_fragment_gsub.
+
+(* the GPOS side: GPOS1 lookups with one or more subtables (formats 1.1 and
+   1.2, value records over XPlacement, YPlacement, XAdvance), the descriptions
+   joined by newlines as the callers of ExplainGpos do *)
+Theorem parse_explain_id_fragment_gpos :
+  forall (U : uclass) (F : font) (ll : list lookup),
+    font_wf U F = true ->
+    Forall (fun lk => gpos_lookup_wf F lk = true) ll ->
+    M_parse U F (M_explain_gpos U F ll) = POk ll.
+Proof. exact parse_explain_gpos. Qed.
+Print Assumptions parse_explain_id_fragment_gpos.
